@@ -65,7 +65,7 @@ HOST = 'stub.test'
 RBASE = 'http://%s/sand' % HOST
 FILENAMES = ('inc.xsd', 'imp.xsd', 'main.xsd', 'doc.xml', 'chain.xsd', 'innocent.xsd')
 
-# The catalogue of the design (14) is the completed bound of both tiers; EXTRA is the next bound:
+# The catalogue (the 14 of the design + 4 authority-less / made-up scheme URLs + 2 absolute '..' escapes) is the completed bound of both tiers; EXTRA is the next bound:
 # thorough takes all of it, quick the seed-selected residue slice.  {T} = fixture root, {F} = file name.
 CATALOGUE = (
     'sub/{F}', './sub/../sub/{F}',
@@ -73,13 +73,17 @@ CATALOGUE = (
     '%2e%2e/other/{F}', '../sand_evil/{F}', 'FILE://{T}/other/{F}',
     'http://stub.test/r/{F}', 'https://stub.test/r/{F}', 'ftp://stub.test/r/{F}',
     'c:/{F}',
+    # a scheme that is neither a file scheme nor http-like, without and with an authority part
+    'mem:{F}', 'mem:/dir/{F}', 'MEM:{F}', 'mem://host/{F}',
+    # absolute spellings that start inside the base and leave it through '..' (string prefix = base)
+    '{T}/sand/../other/{F}', 'file://{T}/sand/../sand_evil/{F}',
 )
 EXTRA = (
     '{T}/sand/sub/{F}', 'file://{T}/sand/sub/{F}', '../sand/sub/{F}',
-    '{T}/sand_evil/{F}', 'file://{T}/sand_evil/{F}', 'file://{T}/sand/../sand_evil/{F}',
+    '{T}/sand_evil/{F}', 'file://{T}/sand_evil/{F}',
     'sub/%2e%2e/%2e%2e/sand_evil/{F}', '..%2fother/{F}', '..\\other\\{F}', ' ../other/{F}',
     'file://localhost{T}/other/{F}', 'HTTP://stub.test/r/{F}', '//stub.test/r/{F}',
-    'http://stub.test/sand/../other/{F}', '{T}/sand/../other/{F}', 'file://{T}/sand%5fevil/{F}',
+    'http://stub.test/sand/../other/{F}', 'file://{T}/sand%5fevil/{F}',
 )
 SLICE_K = 4
 
@@ -142,6 +146,7 @@ class Tree:
     """The fixture tree plus the stub opener; owners maps a unique element name to the file / URL declaring it."""
     LOCAL_DIRS = (('sub', 'sand/sub'), ('other', 'other'), ('evil', 'sand_evil'))
     REMOTE_DIRS = ('/sand/sub', '/other', '/sand_evil', '/r')
+    MEM_DIRS = ('', '/dir', '/')
 
     def __init__(self):
         self.root = os.path.realpath(tempfile.mkdtemp(prefix='c12_', dir='/var/tmp'))
@@ -162,6 +167,11 @@ class Tree:
                 for scheme in ('http', 'https', 'ftp'):
                     self.owners[self.rname(scheme, d, kind)] = ('remote', None)
                 self.stub.table['%s/%s.xsd' % (d, kind)] = \
+                    (lambda scheme, d=d, kind=kind, ns=ns: target_xsd(ns, self.rname(scheme, d, kind)).encode())
+        for d in self.MEM_DIRS:                             # mem:inc.xsd, mem:/dir/inc.xsd, mem://host/inc.xsd
+            for kind, ns in (('inc', 'urn:m'), ('imp', 'urn:t')):
+                self.owners[self.rname('mem', d, kind)] = ('remote', None)
+                self.stub.table['%s/%s.xsd' % (d.rstrip('/'), kind) if d else kind + '.xsd'] = \
                     (lambda scheme, d=d, kind=kind, ns=ns: target_xsd(ns, self.rname(scheme, d, kind)).encode())
         self.remote_text = {}
         for name in FILENAMES[2:5]:
